@@ -119,6 +119,9 @@ func claimsFromIDToken(idToken string) (*claims, error) {
 	// id_token is a base64 encode ID token payload
 	// https://developers.google.com/accounts/docs/OAuth2Login#obtainuserinfo
 	jwt := strings.Split(idToken, ".")
+	if len(jwt) < 2 {
+		return nil, errors.New("id_token is not a JWT")
+	}
 	jwtData := strings.TrimSuffix(jwt[1], "=")
 	b, err := base64.RawURLEncoding.DecodeString(jwtData)
 	if err != nil {
